@@ -104,12 +104,143 @@ pub fn check(c: &Case, obs: &mut Obs) -> Result<(), Fail> {
     Ok(())
 }
 
+/// A HISTORY of divisions on one thread: one division, then `n` further divisions that change the generator every time
+/// (alternating between two generators) over dividends of one family, then a last division. `n` is drawn around 2^k
+/// (a counter, epoch or generation number kept between calls wraps there). Every result must be the true remainder.
+#[derive(Clone, Debug)]
+pub struct DivHistory {
+    pub gens: [(usize, Level); 3],
+    pub x: Vec<u8>,
+    pub n: usize,
+    /// dividends of the calls in between: 0 all zero; 1 zero except the last byte; 2 the first dividend again; 3 generated
+    pub filler: u8,
+    /// generator of the last call: 0 the one used by the call before it; 1 the third generator; 2 the first call's
+    pub last_gen: u8,
+    pub y: Option<Vec<u8>>,
+}
+
+pub fn dh_json(h: &DivHistory) -> Value {
+    json!({"division_history": true, "generators": h.gens.iter().map(|(v, l)| json!([v, l.name()])).collect::<Vec<_>>(), "x_hex": hex(&h.x), "calls_between": h.n,
+           "filler": h.filler, "last_generator": h.last_gen, "y_hex": h.y.as_ref().map(|y| hex(y))})
+}
+
+fn dh_from(v: &Value) -> Option<DivHistory> {
+    let g = v.get("generators")?.as_array()?;
+    let mut gens = [(1usize, Level::L); 3];
+    for (i, x) in g.iter().take(3).enumerate() {
+        gens[i] = (x.get(0)?.as_u64()? as usize, level_from(x.get(1)?.as_str()?));
+    }
+    Some(DivHistory {
+        gens,
+        x: unhex(v.get("x_hex")?.as_str()?)?,
+        n: v.get("calls_between")?.as_u64()? as usize,
+        filler: v.get("filler")?.as_u64()? as u8,
+        last_gen: v.get("last_generator")?.as_u64()? as u8,
+        y: v.get("y_hex").and_then(|y| y.as_str()).and_then(unhex),
+    })
+}
+
+pub fn check_div_history(h: &DivHistory, obs: &mut Obs) -> Result<(), Fail> {
+    let fit = |d: &[u8], (v, l): (usize, Level)| -> Vec<u8> {
+        let len = layout(v, l).short_data;
+        (0..len).map(|i| d.get(i).copied().unwrap_or(0)).collect()
+    };
+    let one = |g: (usize, Level), data: Vec<u8>, what: String| -> Result<(), Fail> {
+        let ec = ec_per_block(g.0, g.1);
+        let got = fq_ec(g.0, g.1, &data).map_err(|p| Fail { sig: panic_sig(&p), msg: format!("{}: division panicked: {}", what, p) })?;
+        let want = gf::rs_remainder(&data, ec);
+        if got != want {
+            return fail("remainder_after_history", format!("{}: block {:02x?} with the generator of v{} {} (degree {}): EC codewords {:02x?}, true remainder {:02x?} ({})", what, data, g.0, g.1.name(), ec, got, want, dh_json(h)));
+        }
+        Ok(())
+    };
+    one(h.gens[0], fit(&h.x, h.gens[0]), "first call".into())?;
+    let mut last = h.gens[0];
+    for i in 0..h.n {
+        let g = if i % 2 == 0 { h.gens[1] } else { h.gens[0] };
+        let data = match h.filler {
+            0 => fit(&[], g),
+            1 => {
+                let mut d = fit(&[], g);
+                if let Some(b) = d.last_mut() {
+                    *b = 1 + (i % 255) as u8;
+                }
+                d
+            }
+            2 => fit(&h.x, g),
+            _ => {
+                let mut d = fit(&[], g);
+                let mut s = crate::engine::hash_bytes(&[(i & 255) as u8, (i >> 8) as u8, h.filler]);
+                for b in d.iter_mut() {
+                    s = s.wrapping_mul(6364136223846793005).wrapping_add(1442695040888963407);
+                    *b = (s >> 33) as u8;
+                }
+                d
+            }
+        };
+        one(g, data, format!("call {} of {} in between", i + 1, h.n))?;
+        last = g;
+    }
+    let g = match h.last_gen {
+        0 => last,
+        1 => h.gens[2],
+        _ => h.gens[0],
+    };
+    let y = h.y.clone().unwrap_or_else(|| h.x.clone());
+    one(g, fit(&y, g), "last call".into())?;
+    obs.label(&format!("calls_between:{}", match h.n { 0..=9 => "0-9", 10..=200 => "10-200", 201..=300 => "around_2^8", 301..=1100 => "around_2^9_2^10", _ => "around_2^16" }));
+    obs.label(&format!("filler:{}", ["all_zero", "last_byte_only", "first_dividend", "generated"][h.filler as usize % 4]));
+    if h.n >= 2 {
+        obs.nontrivial(crate::engine::hash_value(&dh_json(h)));
+    }
+    obs.sample(&format!("division_history|{}", h.filler), || dh_json(h));
+    Ok(())
+}
+
+pub fn div_history_strategy(deep: bool) -> BoxedStrategy<DivHistory> {
+    // generators of small blocks (cheap reference division), of three different degrees
+    let small: Vec<(usize, Level)> = {
+        let mut seen = std::collections::BTreeSet::new();
+        let mut out = Vec::new();
+        for v in 1..=12usize {
+            for &l in &LEVELS {
+                if layout(v, l).short_data <= 48 && seen.insert(ec_per_block(v, l)) {
+                    out.push((v, l));
+                }
+            }
+        }
+        out
+    };
+    let k = small.len();
+    let n = if deep {
+        prop_oneof![2 => 0usize..10, 3 => (0usize..5).prop_map(|d| 126 + d), 6 => (0usize..7).prop_map(|d| 252 + d), 3 => (0usize..5).prop_map(|d| 510 + d), 2 => (0usize..5).prop_map(|d| 1022 + d), 2 => (0usize..5).prop_map(|d| 65534 + d), 1 => 10usize..3000].boxed()
+    } else {
+        prop_oneof![2 => 0usize..10, 3 => (0usize..5).prop_map(|d| 126 + d), 6 => (0usize..7).prop_map(|d| 252 + d), 3 => (0usize..5).prop_map(|d| 510 + d), 2 => (0usize..5).prop_map(|d| 1022 + d), 1 => 10usize..1200].boxed()
+    };
+    (0usize..k, 1usize..k, 1usize..k, vec(any::<u8>(), 48), n, prop_oneof![3 => Just(0u8), 1 => Just(1u8), 1 => Just(2u8), 1 => Just(3u8)], 0u8..3, prop_oneof![2 => Just(None), 1 => vec(any::<u8>(), 48).prop_map(Some)])
+        .prop_map(move |(a, db, dc, x, n, filler, last_gen, y)| {
+            let b = (a + db) % k;
+            let mut c = (a + dc) % k;
+            if c == b {
+                c = (c + 1) % k;
+                if c == a {
+                    c = (c + 1) % k;
+                }
+            }
+            DivHistory { gens: [small[a], small[b], small[c]], x, n, filler, last_gen, y }
+        })
+        .boxed()
+}
+
 pub fn replay(_e: &Engine, case: &Value, obs: &mut Obs) -> Result<(), Fail> {
     if case.get("input_hex").is_some() {
         let bc = crate::fq::BuildCase::from_json(case).ok_or_else(|| Fail { sig: "bad_replay".into(), msg: "cannot parse case".into() })?;
         return check_symbol(&bc, "replay", obs);
     }
     let bad = || Fail { sig: "bad_replay".into(), msg: "cannot parse case".into() };
+    if case.get("division_history").is_some() {
+        return check_div_history(&dh_from(case).ok_or_else(bad)?, obs);
+    }
     let version = case["version"].as_u64().ok_or_else(bad)? as usize;
     let level = level_from(case["level"].as_str().ok_or_else(bad)?);
     if case.get("data_hex").is_none() {
@@ -312,6 +443,21 @@ pub fn run(e: &'static Engine) {
                 }));
             }
         }
+    }
+    e.par(jobs);
+    // (e) histories of divisions on one thread with the number of calls in between around 2^k
+    let total: u32 = e.tier.pick(640, 9600);
+    let shards = e.tier.pick(32u32, 96);
+    let deep = e.tier == Tier::Thorough;
+    let mut jobs: Vec<Job> = Vec::new();
+    for _ in 0..shards {
+        jobs.push(Box::new(move |jc: &mut JobCtx| {
+            let strat = div_history_strategy(deep);
+            jc.run_prop(55 << 20, &strat, total / shards, dh_json, |h, o| {
+                o.label("part:division_histories");
+                check_div_history(h, o)
+            });
+        }));
     }
     e.par(jobs);
     // (d) symbol level: emitted EC codewords of every block of built symbols (random cells, tie-rich small versions,
